@@ -31,7 +31,7 @@ def name(t):
 
 
 def legal(op, ver, sender, seq, i, extra=None, after_finished=False,
-          kex=None):
+          kex=None, early=False):
     """op in skip|dup|swap|insert|replace applied at index i of seq (list of
     message types sent by `sender` ('c'|'s') in a handshake of version
     ver).  extra = inserted / replacing type."""
@@ -81,6 +81,15 @@ def legal(op, ver, sender, seq, i, extra=None, after_finished=False,
             # TLS 1.3 treats every alert but close_notify / user_canceled
             # as an error (RFC 8446 section 6)
             return False if tls13 else None
+        if extra == APPDATA and early and sender == "c" and not post:
+            # the first ClientHello announced early data (RFC 8446 4.2.10):
+            # records the server cannot use are skipped until the next
+            # message of the client's it does process (a compatibility CCS
+            # does not count); after that the window is shut
+            first = 1
+            while first < len(seq) and seq[first] == CCS:
+                first += 1
+            return None if i <= first else False
         if extra == APPDATA and post:
             # after the sender's Finished application data is what follows;
             # a TLS 1.3 server may send it right away (0.5-RTT)
@@ -121,11 +130,12 @@ def legal(op, ver, sender, seq, i, extra=None, after_finished=False,
                 sender == "c" and m == CERT:
             return None      # SSLv3's way of saying "I have no certificate"
         # = message i left out and `extra` sent in its place
-        a = legal("skip", ver, sender, seq, i, kex=kex)
+        a = legal("skip", ver, sender, seq, i, kex=kex, early=early)
         if a is False:
             return False
         rest = seq[:i] + seq[i + 1:]
-        b = legal("insert", ver, sender, rest, i, extra, kex=kex)
+        b = legal("insert", ver, sender, rest, i, extra, kex=kex,
+                  early=early)
         if b is False:
             return False
         return True if (a is True and b is True) else None
@@ -138,7 +148,8 @@ def legal(op, ver, sender, seq, i, extra=None, after_finished=False,
         # otherwise packing is fine iff the resulting message sequence is:
         # it is the same as inserting `extra` before message i+1
         if i + 1 < len(seq):
-            return legal("insert", ver, sender, seq, i + 1, extra, kex=kex)
+            return legal("insert", ver, sender, seq, i + 1, extra, kex=kex,
+                         early=early)
         if tls13 and extra in (NST, KEY_UPDATE) and sender == "s":
             return True
         if not tls13 and extra == HELLO_REQUEST and sender == "s":
